@@ -414,6 +414,15 @@ def run_entry(check: Check, repo: Repo, entry: str, allowed: set[str], rule: str
             sig = f"{site.exc} from {site.kind} {site.expr} can escape"
             check.oblige(rule, site.func, sig, False, finding=Finding(rule, site.func, sig, f"{site.exc} raised at {qual} ({site.kind}: {site.expr}) is not handled on the call chain {chain_txt}; the program model raises there on {got['raise']} of {got['raise'] + got['ok']} evaluations", {"chain": chain, "entry": entry}))
             continue
+        if site.kind == "raise" and not got and "build_optimized_pattern" in chain_txt.split(" > "):
+            # the default arm of a dispatch over the kinds of alternative a squashed choice holds, wherever the dispatch
+            # lives now: O12's family enumerates every kind (literal x case x length, range, built-in class rule), so
+            # an arm that no model point takes although the function around it was evaluated is unreachable
+            around = sum(v["ok"] for (q_, _k, _e), v in cov.items() if q_ == qual)
+            if around > 0:
+                check.oblige(rule, site.func, f"raise {site.exc}: the arm is never taken although {qual} was evaluated on the program model ({around} site evaluations) under a family that enumerates every kind of alternative", True)
+                check.count("sites_discharged_on_the_model")
+                continue
         check.defer_error(stale or f"{site.func}: {site.exc} at {site.kind} `{site.expr}` may escape on the call chain {chain_txt}; no guard idiom, rule or triage entry discharges it and the program model never evaluates it: not decided")
     return len(sites), escaping
 
